@@ -49,6 +49,30 @@ def untraced():
     return contextlib.nullcontext()
 
 
+def isolated(module, func, *args):
+    """Run `module.func(*args)` (concrete JSON-able arguments, returns a bool) in a FRESH interpreter.
+
+    Used by harnesses about sequences of calls: every explored path then has exactly its own history,
+    explored paths cannot influence each other through state a (mutated) implementation keeps, and
+    a replay re-runs exactly the same history."""
+    import json
+    import subprocess
+    prog = ("import json, logging, sys; logging.disable(logging.CRITICAL); sys.path[:0] = %r; import importlib; "
+            "m = importlib.import_module(%r); print('ISOLATED ' + json.dumps(bool(getattr(m, %r)(*json.loads(sys.argv[1])))))"
+            % ([p for p in sys.path if p], module, func))
+    with untraced():
+        p = subprocess.run([sys.executable, "-c", prog, json.dumps(list(args))], capture_output=True, text=True, timeout=300,
+                           env=dict(os.environ, VF_ISOLATED="1"))
+        for ln in p.stdout.splitlines():
+            if ln.startswith("ISOLATED "):
+                return json.loads(ln[9:])
+        raise IsolatedFailure(p.stderr[-600:])
+
+
+class IsolatedFailure(Exception):
+    """The isolated run raised: its traceback text is the message (the replay re-runs it)."""
+
+
 def pick(seq, i):
     """seq[i] for a symbolic index, by branching: the element stays a concrete object."""
     for k in range(len(seq)):
